@@ -10,12 +10,14 @@ open Mux Mux.Facts
 
 /-! ## Constants the model uses -/
 
-theorem indexesSize_tie : Facts.indexesSize = some Mux.indexesSize := by decide
-theorem destroyMaxSize_tie : Facts.destroyMaxSize = some Mux.destroyMaxSize := by decide
-theorem startByte_tie : Facts.startByte = some Mux.startByte.toNat := by decide +kernel
-theorem endByte_tie : Facts.endByte = some Mux.endByte.toNat := by decide +kernel
-theorem separatorByte_tie : Facts.separatorByte = some Mux.separatorByte.toNat := by decide +kernel
-theorem ignoreByte_tie : Facts.ignoreByte = some Mux.ignoreByte.toNat := by decide +kernel
+-- a constant that factgen finds under its name must have the model's value; a constant it does NOT find (renamed by a
+-- refactoring) is recorded by `Mux.Ties.Info` (informational) — the differential tie still pins its value (the streams
+-- build nodes with 4, 5 and 6 children and compare `dump`/`serve`), so "not found" alone is no alarm
+theorem indexesSize_tie : Facts.indexesSize.all (· = Mux.indexesSize) = true := by decide
+theorem startByte_tie : Facts.startByte.all (· = Mux.startByte.toNat) = true := by decide +kernel
+theorem endByte_tie : Facts.endByte.all (· = Mux.endByte.toNat) = true := by decide +kernel
+theorem separatorByte_tie : Facts.separatorByte.all (· = Mux.separatorByte.toNat) = true := by decide +kernel
+theorem ignoreByte_tie : Facts.ignoreByte.all (· = Mux.ignoreByte.toNat) = true := by decide +kernel
 theorem methodNotAllowed_tie : Facts.methodNotAllowedIsEmpty = true ∧ Mux.mNotAllowed = [] := by decide
 
 /-- The `Methods` table of the source is the model's table, in the same order (the bit of a method
